@@ -223,7 +223,15 @@ Theorem hits_wrapper (u : list Q) :
 Proof. exact (hits_wrapper_proof u). Qed.
 Print Assumptions hits_wrapper.
 
-(** Regression witnesses for the two branches repaired in this round. *)
+(** Regression witnesses for the branches repaired in this round. *)
+Theorem old_hits_sign_refuted :
+  exists u : list Q,
+    u = [- (1 # 2); - (3 # 4); 1 # 100000000000000000; 1 # 100000000000000000; 1 # 100000000000000000]%Q /\
+    old_sign_fix u = [0; 0; 1 # 100000000000000000; 1 # 100000000000000000; 1 # 100000000000000000]%Q /\
+    sign_fix u = [1 # 2; 3 # 4; 0; 0; 0]%Q.
+Proof. exact old_hits_sign_refuted_proof. Qed.
+Print Assumptions old_hits_sign_refuted.
+
 Theorem old_closeness_approx_refuted :
   exists (p : graph) (sources : list nat),
     sources = [1; 0; 2] /\ p = [[1]; [0; 2]; [1]] /\
